@@ -242,6 +242,18 @@ struct Cell {
 		}
 		// parity of the next listener id decides by-value / by-reference
 		k += fmt("a%d.%d.p%d", adds % 3, (int)(handleOf.size() % 2), CustomGetEvent ? nextPayload % 3 : 0);
+		// what the implementation enumerates per key, relative to the model's order: a state holding the right listeners in
+		// another order (or under another key) must not be merged with the ordinary state; one token on a correct tree
+		for(int ki = 0; ki < 3; ++ki) {
+			std::string ord; bool same = true; size_t pos = 0;
+			d->forEach(KeyOps<K>::make(ki), [&](const Handle & h, const typename D::Callback &) {
+				int id = -1; for(size_t i = 0; i < handleOf.size(); ++i) if(handleOf[i].lock() == h.lock()) id = (int)i;
+				if(pos >= order[ki].size() || order[ki][pos] != id) same = false;
+				ord += fmt("%d,", id); ++pos;
+			});
+			if(pos != order[ki].size()) same = false;
+			k += same ? std::string("|=") : "|E:" + ord;
+		}
 		return k;
 	}
 	void body(Bfs & b) {
